@@ -4,11 +4,30 @@
 (* frappy/protocol/dispatcher.py handle_logging / reset_connection,             *)
 (* frappy/modulebase.py setRemoteLogging), and log file rotation                *)
 (* (frappy/logging.py LogfileHandler.doRollover).                               *)
+(*                                                                              *)
+(* Local sinks of a record (frappy/logging.py MainLogger.init, LogfileHandler   *)
+(* .emit / .getChild, HasComlog, ComLogfileHandler; frappy/server.py:99-105):   *)
+(*   console        every record with level >= console level                    *)
+(*   "main"         <logdir>/<root>/<root>-<date>.log: records of the main      *)
+(*                  logger itself with level >= logfile_level, never COMLOG     *)
+(*   "node"         <logdir>/<root>/<node>/<node>-<date>.log (child handler of  *)
+(*                  the node's logger, same level and retention as the main     *)
+(*                  one): records of the module loggers, same filter            *)
+(*   m (in ComMods) <logdir>/<root>/comlog/<node>/<m>/<m>-<date>.log: one line  *)
+(*                  per comLog() of communicator m iff the module property      *)
+(*                  comlog, generalConfig.comlog and generalConfig.initialized  *)
+(* One record has three independent outcomes: remote receivers, log file,       *)
+(* comlog file.  Files are dated; the first line written on a new day creates   *)
+(* the file of that day and keeps only the newest N files of that sink          *)
+(* (N = logfile_days / comlog_days, 0 = keep all).                              *)
 EXTENDS Naturals, Sequences, FiniteSets, TLC
 
 CONSTANTS Conns,     \* connection ids (strings)
           Mods,      \* module names (strings)
-          Used       \* level names explored (subset of LevelNames)
+          Used,      \* level names explored (subset of LevelNames)
+          ComMods,   \* modules that are communicators (HasComlog), subset of Mods
+          Configs,   \* explored configurations (see CfgOne ... below)
+          MaxDay     \* horizon of the day counter
 
 LevelVal == [debug |-> 10, comlog |-> 15, info |-> 20, warning |-> 30, error |-> 40, off |-> 99]
 LevelNames == DOMAIN LevelVal
@@ -17,17 +36,57 @@ ReqLevels == Used \cup {"bogus"}       \* what a client may send as level
 EmitLevels == Used \ {"off"}           \* what a module may log at
 Targets == Mods \cup {"."}                    \* logging request specifier ("." = all modules)
 
+ASSUME ComMods \subseteq Mods /\ Mods \cap {"main", "node", "console", "."} = {}
+
+(* ---- configuration alphabet ---- *)
+(* file: logfile_level or "nodir" (no logdir: no log file at all); con: console level;                  *)
+(* gcomlog / ginit: generalConfig.comlog / generalConfig.initialized; mcomlog: module property comlog;  *)
+(* fdays / cdays: logfile_days / comlog_days (0 = unlimited)                                            *)
+Cfg(f, c, g, i, m, fd, cd) ==
+    [file |-> f, con |-> c, gcomlog |-> g, ginit |-> i, mcomlog |-> m, fdays |-> fd, cdays |-> cd]
+CfgProduct(F, C, G, I, M, FD, CD) ==
+    {Cfg(f, c, g, i, m, fd, cd) : f \in F, c \in C, g \in G, i \in I, m \in M, fd \in FD, cd \in CD}
+CfgOne == {Cfg("info", "info", TRUE, TRUE, TRUE, 0, 7)}
+\* without a log directory there is no place for comlog files either: generalConfig.init() makes logdir
+\* mandatory, "nodir" is explored with the comlog switch off only
+NoDirNoComlog(S) == {c \in S : c.file = "nodir" => ~c.gcomlog}
+CfgSwitchesQuick == NoDirNoComlog(CfgProduct({"nodir", "debug", "info", "error"}, {"debug", "info", "error"},
+                                             BOOLEAN, BOOLEAN, BOOLEAN, {0}, {7}))
+CfgSwitchesFull == NoDirNoComlog(CfgProduct({"nodir", "debug", "comlog", "info", "warning", "error", "off"},
+                                            {"debug", "comlog", "info", "warning", "error"},
+                                            BOOLEAN, BOOLEAN, BOOLEAN, {0}, {7}))
+CfgMixed == CfgProduct({"info"}, {"debug"}, {TRUE}, {TRUE}, BOOLEAN, {1}, {1})
+CfgDaysQuick == {Cfg("info", "error", TRUE, TRUE, TRUE, 0, 1), Cfg("info", "error", TRUE, TRUE, TRUE, 1, 2),
+                 Cfg("info", "error", TRUE, TRUE, TRUE, 2, 7)}
+\* everything a recorded execution may have been configured with (membership only, never enumerated)
+CfgAll == [file : {"nodir", "debug", "comlog", "info", "warning", "error", "off"},
+           con : {"debug", "comlog", "info", "warning", "error"},
+           gcomlog : BOOLEAN, ginit : BOOLEAN, mcomlog : BOOLEAN, fdays : 0 .. 7, cdays : 0 .. 7]
+CfgDaysFull == CfgProduct({"info"}, {"error"}, {TRUE}, {TRUE}, {TRUE}, {0, 1, 2, 3}, {1, 2, 7})
+
 VARIABLES level,   \* [Mods \X Conns -> Nat] chosen threshold, Off when not enabled
           alive,   \* connections not yet disconnected
-          last     \* observable outcome of the last operation
+          last,    \* observable outcome of the last operation
+          cfg,     \* the configuration the node was started with (never changes)
+          day,     \* current day (1 = day of the start)
+          dated    \* [Files -> SUBSET Days]: days for which the sink has a dated file
 
-rvars == <<level, alive, last>>
+rvars == <<level, alive, last, cfg, day, dated>>
 
 None == [kind |-> "none"]
+
+Files == {"main", "node"} \cup ComMods        \* the comlog file of communicator m is named m
+Sinks == {"console"} \cup Files
+Days == 1 .. MaxDay
 
 RInit == /\ level = [mc \in Mods \X Conns |-> Off]
          /\ alive = Conns
          /\ last = None
+         /\ cfg \in Configs
+         /\ day = 1
+         /\ dated = [f \in Files |-> {}]
+
+lvars == <<cfg, day, dated>>
 
 (* logging <target> <lvl>: set the threshold of one module or of all modules *)
 LoggingReq(c, target, lvl) ==
@@ -40,14 +99,63 @@ LoggingReq(c, target, lvl) ==
        ELSE \* an invalid level name changes nothing and yields an error reply
             /\ UNCHANGED level
             /\ last' = [kind |-> "reply", ok |-> FALSE]
-    /\ UNCHANGED alive
+    /\ UNCHANGED <<alive, lvars>>
 
 (* a module logs a record: delivered exactly to connections whose threshold is reached *)
 Receivers(m, lvl) == {c \in alive : level[<<m, c>>] # Off /\ LevelVal[lvl] >= level[<<m, c>>]}
 
+(* ---- local sinks ---- *)
+DropComlog == TRUE      \* LogfileHandler.emit drops COMLOG records ("must fail" configurations switch this off)
+Never == FALSE
+FileOn == cfg.file # "nodir"
+ToConsole(lvl) == LevelVal[lvl] >= LevelVal[cfg.con]
+ToFile(lvl) == /\ FileOn
+               /\ LevelVal[lvl] >= LevelVal[cfg.file]
+               /\ (DropComlog => lvl # "comlog")
+ComOn(m) == m \in ComMods /\ cfg.mcomlog /\ cfg.gcomlog /\ cfg.ginit
+Retention(f) == IF f \in ComMods THEN cfg.cdays ELSE cfg.fdays
+
+Console(lvl) == IF ToConsole(lvl) THEN {"console"} ELSE {}
+ModSinks(lvl) == Console(lvl) \cup (IF ToFile(lvl) THEN {"node"} ELSE {})
+MainSinks(lvl) == Console(lvl) \cup (IF ToFile(lvl) THEN {"main"} ELSE {})
+ComSinks(m) == ModSinks("comlog") \cup (IF ComOn(m) THEN {m} ELSE {})
+
+(* the n newest members of S (all of them when n = 0) *)
+Newest(S, n) == IF n = 0 THEN S ELSE {d \in S : Cardinality({e \in S : e > d}) < n}
+(* every file sink reached gets its line in today's file; a new day keeps the newest N files of that sink *)
+Write(sinks) == dated' = [f \in Files |-> IF f \in sinks THEN Newest(dated[f] \cup {day}, Retention(f))
+                                          ELSE dated[f]]
+
 Emit(m, lvl) ==
-    /\ last' = [kind |-> "emit", to |-> Receivers(m, lvl), mod |-> m, lvl |-> lvl]
-    /\ UNCHANGED <<level, alive>>
+    /\ last' = [kind |-> "emit", to |-> Receivers(m, lvl), mod |-> m, lvl |-> lvl, sinks |-> ModSinks(lvl)]
+    /\ Write(ModSinks(lvl))
+    /\ UNCHANGED <<level, alive, cfg, day>>
+
+(* a record of the main logger itself (start script, anything outside the node): no remote handler there *)
+MainEmit(lvl) ==
+    /\ last' = [kind |-> "mainemit", to |-> {}, lvl |-> lvl, sinks |-> MainSinks(lvl)]
+    /\ Write(MainSinks(lvl))
+    /\ UNCHANGED <<level, alive, cfg, day>>
+
+(* communicator m calls comLog(msg): a COMLOG record on its ordinary logger plus one line in its comlog file *)
+ComLog(m) ==
+    /\ m \in ComMods
+    /\ last' = [kind |-> "comlog", to |-> Receivers(m, "comlog"), mod |-> m, lvl |-> "comlog",
+                sinks |-> ComSinks(m)]
+    /\ Write(ComSinks(m))
+    /\ UNCHANGED <<level, alive, cfg, day>>
+
+(* midnight *)
+NextDay ==
+    /\ day < MaxDay
+    /\ day' = day + 1
+    /\ last' = [kind |-> "nextday"]
+    /\ UNCHANGED <<level, alive, cfg, dated>>
+
+(* the node creates its modules anew on the same loggers (Server.run restart loop): nothing observable changes *)
+ReInit ==
+    /\ last' = [kind |-> "reinit"]
+    /\ UNCHANGED <<level, alive, lvars>>
 
 ClearConn(c) == level' = [mc \in Mods \X Conns |-> IF mc[2] = c THEN Off ELSE level[mc]]
 
@@ -55,24 +163,39 @@ Ident(c) ==
     /\ c \in alive
     /\ ClearConn(c)
     /\ last' = [kind |-> "ident"]
-    /\ UNCHANGED alive
+    /\ UNCHANGED <<alive, lvars>>
 
 Disconnect(c) ==
     /\ c \in alive
     /\ ClearConn(c)
     /\ alive' = alive \ {c}
     /\ last' = [kind |-> "disconnect"]
+    /\ UNCHANGED lvars
 
 RNext == \/ \E c \in Conns, tg \in Targets, lv \in ReqLevels : LoggingReq(c, tg, lv)
          \/ \E m \in Mods, lv \in EmitLevels : Emit(m, lv)
+         \/ \E lv \in EmitLevels : MainEmit(lv)
+         \/ \E m \in ComMods : ComLog(m)
+         \/ NextDay
+         \/ ReInit
          \/ \E c \in Conns : Ident(c)
          \/ \E c \in Conns : Disconnect(c)
 
 RSpec == RInit /\ [][RNext]_rvars
 
+(* the remote half alone (the routing design is model-checked on more connections without the local actions) *)
+RNextRemote == \/ \E c \in Conns, tg \in Targets, lv \in ReqLevels : LoggingReq(c, tg, lv)
+               \/ \E m \in Mods, lv \in EmitLevels : Emit(m, lv)
+               \/ \E c \in Conns : Ident(c)
+               \/ \E c \in Conns : Disconnect(c)
+RSpecRemote == RInit /\ [][RNextRemote]_rvars
+
 (* ---- properties of the routing design ---- *)
 TypeOK == /\ level \in [Mods \X Conns -> {10, 15, 20, 30, 40, 99}]
           /\ alive \subseteq Conns
+          /\ cfg \in Configs
+          /\ day \in Days
+          /\ dated \in [Files -> SUBSET Days]
 
 (* a dead connection never has a subscription and never receives *)
 DeadSilent == /\ \A m \in Mods, c \in Conns \ alive : level[<<m, c>>] = Off
@@ -91,5 +214,44 @@ Isolation == [][\A c \in Conns, tg \in Targets, lv \in ReqLevels :
 (* ident / disconnect clear exactly the rows of c *)
 ResetClears == [][\A c \in Conns : (Ident(c) \/ Disconnect(c)) =>
                      \A m \in Mods : level'[<<m, c>>] = Off]_rvars
+
+(* ---- properties of the local sinks ---- *)
+IsRecord == last.kind \in {"emit", "mainemit", "comlog"}
+
+(* every sink is reached iff its own condition holds: nothing lost, nothing in a wrong place *)
+ExactSinks == IsRecord =>
+    /\ last.sinks \subseteq Sinks
+    /\ "console" \in last.sinks <=> LevelVal[last.lvl] >= LevelVal[cfg.con]
+    /\ "node" \in last.sinks <=> /\ last.kind \in {"emit", "comlog"}
+                                 /\ cfg.file # "nodir" /\ last.lvl # "comlog"
+                                 /\ LevelVal[last.lvl] >= LevelVal[cfg.file]
+    /\ "main" \in last.sinks <=> /\ last.kind = "mainemit"
+                                 /\ cfg.file # "nodir" /\ last.lvl # "comlog"
+                                 /\ LevelVal[last.lvl] >= LevelVal[cfg.file]
+    /\ \A m \in ComMods : m \in last.sinks <=> /\ last.kind = "comlog" /\ last.mod = m
+                                               /\ cfg.mcomlog /\ cfg.gcomlog /\ cfg.ginit
+    \* the remote receivers do not depend on the local configuration and vice versa
+    /\ last.kind \in {"emit", "comlog"} => last.to = Receivers(last.mod, last.lvl)
+
+(* communication never shows up in the ordinary log files, whatever logfile_level says *)
+ComlogNeverInMainFile == (IsRecord /\ last.lvl = "comlog") => last.sinks \cap {"main", "node"} = {}
+
+(* comLog(msg) of m: its own comlog file and no other one, iff all three switches are on;      *)
+(* an ordinary record never reaches a comlog file                                              *)
+ComlogOnceInComlogFile ==
+    /\ last.kind = "comlog" => last.sinks \cap ComMods = (IF ComOn(last.mod) THEN {last.mod} ELSE {})
+    /\ last.kind \in {"emit", "mainemit"} => last.sinks \cap ComMods = {}
+
+(* a sink that was just written has today's file; never more than N files per sink *)
+RetentionOK == /\ IsRecord => \A f \in last.sinks \cap Files : day \in dated[f]
+               /\ \A f \in Files : Retention(f) > 0 => Cardinality(dated[f]) <= Retention(f)
+
+(* only the sinks reached change, and only files older than all kept ones disappear *)
+SinksIsolated == [][\A f \in Files :
+                      /\ (~IsRecord' \/ f \notin last'.sinks) => dated'[f] = dated[f]
+                      /\ \A d \in dated[f] \ dated'[f] : \A e \in dated'[f] : d < e]_rvars
+
+(* the configuration is fixed at start *)
+CfgFixed == [][cfg' = cfg]_rvars
 
 =============================================================================
